@@ -108,6 +108,7 @@ int main(int argc, char ** argv)
         g.set_nuclide(nuc);
         g.set_process(proc_of(proc));
         g.set_shooting(dbd_gA::SHOOTING_INVERSE_TRANSFORM_METHOD);
+        if (verif_debug_flags()) g.set_debug(true);
         g.initialize();
       } catch (std::exception & x) {
         fail("initialize|inverse-transform", x.what());
@@ -216,6 +217,7 @@ int main(int argc, char ** argv)
           g2.set_nuclide(nuc);
           g2.set_process(proc_of(proc));
           g2.set_shooting(dbd_gA::SHOOTING_REJECTION);
+          if (verif_debug_flags()) g2.set_debug(true);
           g2.initialize();
         } catch (std::exception & x) {
           fail("initialize|rejection", x.what());
